@@ -71,6 +71,16 @@ def _build(form, xs, ys):
         it.set([10.0, 12.5, 11.0, 14.0], [1.0, -2.0, 0.5, 7.0])
         it.set(list(xs), list(ys))
         return it
+    if form == "asked_then_set":
+        # an object that has already been asked everything about ANOTHER table, then is given this one
+        it = Interpolation([10.0, 12.5, 11.0, 14.0], [1.0, -2.0, 0.5, 7.0])
+        for q in (lambda: it(11.7), lambda: it.derivative(12.0), it.minmax, it.root):
+            try:
+                q()
+            except Exception:
+                pass
+        it.set(list(xs), list(ys))
+        return it
     if form == "copy":
         return Interpolation(Interpolation(list(xs), list(ys)))
     if form == "copy_reset":
@@ -111,7 +121,7 @@ def _cycle_tables(rng):
         for (a, b) in ((c - 1.5, c + 3.5), (c + 3.5, c - 1.5), (c - 3.5 + 2.0, c + 1.5 + 2.0 - 2.0)):
             r2 = random.Random("cycle/%s/%s" % (c, a))
             r2.special = (a, b)
-            yield r2, list(xq), [q / 4.0 for q in xq], ys, coefs, rng.choice(["lists", "tuples", "set", "copy"])
+            yield r2, list(xq), [q / 4.0 for q in xq], ys, coefs, rng.choice(["lists", "tuples", "set", "asked_then_set", "copy"])
 
 
 def _tables(seed, shard, n):
@@ -154,7 +164,7 @@ def _tables(seed, shard, n):
             ys = [math.exp(x / 6.0) - 2.0 for x in xs]
         else:
             ys = [rng.uniform(-5, 5) for x in xs]
-        form = rng.choice(["lists", "tuples", "flat", "set", "set_twice", "copy", "copy_reset"])
+        form = rng.choice(["lists", "tuples", "flat", "set", "set_twice", "asked_then_set", "copy", "copy_reset"])
         if form == "flat" and npts < 2:
             form = "lists"
         yield rng, xq, xs, ys, coefs, form
